@@ -136,3 +136,42 @@ func checkSecantEquation(c *core.Ctx) {
 }
 
 var _ = ast.Inspect
+
+// checkQuadraticMin (C07.R6): the interpolation step of the line search returns the stationary point of the quadratic q
+// with q(a) = fa, q'(a) = fpa, q(b) = fb, that is a - fpa (b-a)^2 / (2 (fb - fa - fpa (b-a))).
+func checkQuadraticMin(c *core.Ctx) {
+	c.Rule("C07.R6", "line search interpolation: quadraticMin returns the stationary point of the quadratic through (a, fa) with slope fpa and through (b, fb)", 1)
+	p := c.Pkg("algorithm/lineSearch")
+	cons := "algorithm/lineSearch.quadraticMin"
+	if p == nil {
+		c.Unknown("C07.R6", cons, "package loaded", token.NoPos, "not loaded")
+		return
+	}
+	fd := findFuncDecl(p, "quadraticMin")
+	if fd == nil {
+		c.Unknown("C07.R6", cons, "function found", token.NoPos, "the interpolation routine was not found")
+		return
+	}
+	d := newDeclIndex(c)
+	cfg := vn.Config{Pkg: p, TypeName: "Real64", Spec: distSpec, InlineOps: inlineOps, Decl: d.find, MaxDepth: 4, FiniteSyms: true,
+		ParamSyms: []string{"a", "fa", "fpa", "b", "fb"}}
+	paths, und := vn.Run(cfg, fd)
+	if und != nil {
+		c.Unknown("C07.R6", cons, "interpreted", und.Pos, und.Msg)
+		return
+	}
+	a, fa, fpa, b, fb := sym.Sym("a"), sym.Sym("fa"), sym.Sym("fpa"), sym.Sym("b"), sym.Sym("fb")
+	db := sym.Sub(b, a)
+	B := sym.Div(sym.Sub(sym.Sub(fb, fa), sym.Mul(fpa, db)), sym.Mul(db, db))
+	want := sym.Sub(a, sym.Div(fpa, sym.Mul(sym.Int(2), B)))
+	ok := len(paths) == 1
+	msg := fmt.Sprintf("%d paths", len(paths))
+	if ok {
+		rt, _ := paths[0].Ret.(*sym.Term)
+		ok = rt != nil && sym.Equal(rt, want)
+		if rt != nil {
+			msg = "it returns " + clip(rt.String(), 200) + " instead of " + clip(want.String(), 200)
+		}
+	}
+	c.Check(ok, "C07.R6", cons, "stationary point of the interpolating quadratic", fd.Pos(), msg)
+}
